@@ -1,0 +1,13 @@
+//go:build verif
+
+// Contracts for the deductive verifier in /verif (comment-only file; compiled
+// only with -tags verif and declares nothing).
+
+package metadata
+
+//@ # The ID of a metadata definition is abstract state mdid(d) (specs/llvm_ir.spec).
+//@ func iface Definition.ID
+//@   ensures result == mdid(self)
+//@ func iface Definition.SetID
+//@   assigns ghost(mdid, self)
+//@   ensures mdid(self) == id
